@@ -125,6 +125,9 @@ def cond_keys(c, acc):
     k = c[0]
     if k == 'cmp':
         term_keys(c[2], acc), term_keys(c[3], acc)
+        for t in (c[2], c[3]):
+            if t[0] == 'subq':
+                cond_keys(t[2], acc)
     elif k in ('in', 'contains'):
         term_keys(c[1], acc), term_keys(c[2], acc)
     elif k == 'truth':
@@ -263,6 +266,20 @@ def gen_case_sub(rng, tier):
         c['cond'] = ['sub', [['var', v] for v in sub_sel], body]
         c['sel'] = [['var', k] for k in rng.sample(avail, len(avail))]
         c['form'] = 'set_of' if len(avail) > 1 else rng.choice(['entity', 'set_of'])
+    if rng.random() < 0.25:
+        # a sub-query used as a comparison OPERAND through an attribute:  x.attr <op> an(entity(i, c_i)).attr'  - i is a further
+        # variable that appears nowhere else in the query
+        i = 8
+        nobj = len(c['heap'])
+        c['doms'] = c['doms'] + [[i, rng.sample(range(nobj), rng.randint(1, min(3, nobj)))]]
+        gi = Gen(rng, 1, maxdepth=1, neg=False)
+        gi.keys = [i]
+        ci = gi.cond(rng.randint(0, 1))
+        outer = rng.choice([d[0] for d in c['doms'] if d[0] != i])
+        lhs = ['map', ['f', F[rng.choice('ab')]], ['var', outer]]
+        sub = ['subq', i, ci, ['map', ['f', F[rng.choice('ab')]], ['var', i]]]
+        cmp_ = ['cmp', rng.choice(OPS), lhs, sub] if rng.random() < 0.6 else ['cmp', rng.choice(OPS), sub, lhs]
+        c['cond'] = cmp_ if rng.random() < 0.4 else ['and', c['cond'], cmp_, 'fn'] if rng.random() < 0.6 else ['and', cmp_, c['cond'], 'fn']
     used = cond_keys(c['cond'], set())
     from qcase import term_keys
     for t in c['sel']:
@@ -270,6 +287,7 @@ def gen_case_sub(rng, tier):
     keys = {d[0] for d in c['doms']}
     missing = used - keys
     c['binders'] = [['var', k] for k in sorted(used)]
+    c['doms'] = [d for d in c['doms'] if d[0] in used]
     return c
 
 
@@ -367,7 +385,7 @@ def gen_case_join(rng, tier=None):
     sel = [['var', k] for k in keys if k in used]
     rng.shuffle(sel)
     return dict(heap=heap, doms=[d for d in doms if d[0] in used], binders=[['var', k] for k in keys if k in used], sel=sel,
-                cond=cond, form='set_of')
+                cond=cond, form='set_of', all_doms=doms)
 
 
 # ------------------------------------------------------------------------------------------------ rewrites (C18)
